@@ -360,6 +360,41 @@ pub fn run(ctx: &Ctx) -> (Stats, Report) {
         });
         st.merge(s);
     }
+    // 1e: bracketing syntaxes other date libraries use for literal text (quotes, brackets,
+    // braces, escapes) around ASCII and multi-byte contents of every length 0..=40, inside
+    // otherwise valid pictures and inputs
+    {
+        let brackets = [("\"", "\""), ("'", "'"), ("[", "]"), ("{", "}"), ("(", ")"), ("<", ">"), ("\\", ""), ("%", "%"), ("`", "`")];
+        let s = par_sweep(41, 1, |range, st| {
+            for m in range {
+                for unit in ["x", "é", "日", "😀", " ", "9"] {
+                    let body = unit.repeat(m as usize);
+                    for (open, close) in brackets {
+                        let cases = [
+                            (format!("DD{open}{body}{close}YYYY"), format!("05{body}2021")),
+                            (format!("{open}{body}{close}"), body.clone()),
+                            (format!("YYYY-MM-DD {open}{body}"), format!("2021-03-04 {body}")),
+                            ("YYYY-MM-DD".to_string(), format!("2021{open}{body}{close}03-04")),
+                        ];
+                        for (pic, text) in cases {
+                            match check_text(&pic, &text) {
+                                Ok(c) => {
+                                    st.evaluations += c as u64;
+                                    st.nontrivial_enum += c as u64;
+                                    st.class("bracketed-literal-text");
+                                }
+                                Err(e) => {
+                                    st.fail(m, Case::new(P, "text", vec![], vec![pic, text]), e.chars().take(400).collect());
+                                    return;
+                                }
+                            }
+                        }
+                    }
+                }
+            }
+        });
+        st.merge(s);
+    }
     st.section("long_non_ascii_texts", &mut mark);
 
     // 2a: structured inputs from the constructive speller (valid lenient spellings and
@@ -552,7 +587,7 @@ pub fn run(ctx: &Ctx) -> (Stats, Report) {
     st.section("operation_table_extreme_operands", &mut mark);
 
     let rep = Report {
-        rule: format!("Oracle: catch_unwind - every call returns (a value or an Error). (1) every string up to length {plen} over the picture alphabet as a picture x fixed inputs, and every string up to length {ilen} over a {}-symbol input alphabet (digits, signs, punctuation, letters, tab, newline, NUL, multi-byte characters) as an input x {} fixed pictures, through Formatter::try_new, T::parse, Formatter::parse of all six types and format of 14 boundary values into a String sink (an inapplicable field must surface as Err from the sink, not a panic) and into a re-entrant sink that formats another library value on every chunk it receives; (2) proptest grammar pictures of 0..=40 tokens with blank runs up to 600 and random letter case x inputs obtained by formatting a pool value and applying 0..3 mutations (replace / insert / delete / duplicate a character, splice a digit run, a sign, a multi-byte character, control whitespace, truncate); (2b) blank / digit runs of length 2^k-1, 2^k, 2^k+1 (k = 8..20) and long texts / pictures (filler of every length 0..=1100, 6000 in thorough) with a 2-, 3- or 4-byte character across every byte offset, after a valid prefix with a wrong or right separator; (3) every row of the {}-row operation table x pool values x extreme scalars (i32::MIN, u32::MAX, NaN, infinities, subnormals, 1e300) and proptest-generated scalars. Run under the release profile and under a profile with overflow checks and debug assertions. Non-trivial = the picture compiles and the input is non-empty, or a row with an extreme scalar operand.", INPUT_ALPHABET.len(), FIXED_PICTURES.len(), ops.len()),
+        rule: format!("Oracle: catch_unwind - every call returns (a value or an Error). (1) every string up to length {plen} over the picture alphabet as a picture x fixed inputs, and every string up to length {ilen} over a {}-symbol input alphabet (digits, signs, punctuation, letters, tab, newline, NUL, multi-byte characters) as an input x {} fixed pictures, through Formatter::try_new, T::parse, Formatter::parse of all six types and format of 14 boundary values into a String sink (an inapplicable field must surface as Err from the sink, not a panic) and into a re-entrant sink that formats another library value on every chunk it receives; (2) proptest grammar pictures of 0..=40 tokens with blank runs up to 600 and random letter case x inputs obtained by formatting a pool value and applying 0..3 mutations (replace / insert / delete / duplicate a character, splice a digit run, a sign, a multi-byte character, control whitespace, truncate); (2b) blank / digit runs of length 2^k-1, 2^k, 2^k+1 (k = 8..20) and long texts / pictures (filler of every length 0..=1100, 6000 in thorough) with a 2-, 3- or 4-byte character across every byte offset, after a valid prefix with a wrong or right separator, and nine bracketing syntaxes (quotes, brackets, braces, escapes) around ASCII / multi-byte contents of every length 0..=40; (3) every row of the {}-row operation table x pool values x extreme scalars (i32::MIN, u32::MAX, NaN, infinities, subnormals, 1e300) and proptest-generated scalars. Run under the release profile and under a profile with overflow checks and debug assertions. Non-trivial = the picture compiles and the input is non-empty, or a row with an extreme scalar operand.", INPUT_ALPHABET.len(), FIXED_PICTURES.len(), ops.len()),
         assumptions: vec![
             "unsafe fns and the documented-to-panic WeekDay::from(usize) / Month::from(usize) are outside the quantifier".into(),
             "formatting is observed through write!(&mut String, ..); ToString::to_string() on a Display that reports an error panics inside std by std's contract and is never called".into(),
